@@ -135,9 +135,12 @@ def failures(pid, inst, res):
 
 def run_one(args):
     d, k, inst = args
-    res = solve.run_solve(d, "c%d" % k, inst, pipemodel=True)
+    # every fourth run goes through the command-line wiring (internal::run) instead of the server's
+    entry = "internal" if k % 4 == 3 else "server"
+    res = solve.run_solve(d, "c%d" % k, inst, pipemodel=True, entry=entry)
     res["inst"] = inst
     res["k"] = k
+    res["entry"] = entry
     return res
 
 
@@ -250,6 +253,8 @@ def conclude(pid, tier, seed, t0, proof, results, what, failures_fn=None, extra_
         "property_failures_on_impl": len(violations), "known_findings_hit": sorted(seen), "compared": what,
         "correspondence_differences": len(corr),
         "cone_correspondence_cases": cone_counts, "cone_correspondence_differences": len(cone_diffs),
+        "entry_points": {e: len([r for r in results if r.get("entry") == e]) for e in ("server", "internal")
+                         if any(r.get("entry") == e for r in results)},
     }
     if extra_cov:
         cov.update(extra_cov)
